@@ -65,6 +65,8 @@ type Options struct {
 	AvoidIfOpen []string
 	// Extra lists fixed designs checked in addition to the N generated ones.
 	Extra []*m.Design
+	// Generate replaces gen.Design(Profile) as the source of designs (seed -> design).
+	Generate func(seed int) *m.Design
 }
 
 // Prepare generates, builds and starts n designs (or loads the one of a
@@ -93,7 +95,12 @@ func Prepare(t *testing.T, tag string, o Options) (*pipeline.Session, []*Built) 
 		designs = []*m.Design{&d}
 	} else {
 		for i := 0; len(designs) < o.N && i < o.N*6; i++ {
-			d := gen.Design(o.Profile).Example(o.Seed*1000003 + i)
+			var d *m.Design
+			if o.Generate != nil {
+				d = o.Generate(o.Seed*1000003 + i)
+			} else {
+				d = gen.Design(o.Profile).Example(o.Seed*1000003 + i)
+			}
 			if o.Tweak != nil {
 				o.Tweak(d)
 			}
